@@ -12,6 +12,7 @@ import (
 	"time"
 
 	"github.com/obolnetwork/charon/app/eth2wrap"
+	"github.com/obolnetwork/charon/testutil/beaconmock"
 
 	"verifharness/kit"
 )
@@ -70,7 +71,24 @@ type cellSpec struct {
 	Deadline    bool       `json:"cancel_is_deadline,omitempty"`
 	Calls       int        `json:"concurrent_calls,omitempty"`
 	Proxy       *proxySpec `json:"proxy_request,omitempty"`
+	// Scoped: the client under test is obtained with ClientForAddress(<the single primary>) from a
+	// client configured with further primaries before / after it (what the fetcher does to pin one
+	// duty's queries to one beacon node): the cell's primary plus the configured fallbacks.
+	Scoped *scopedSpec `json:"scoped_via_client_for_address,omitempty"`
 }
+
+type scopedSpec struct {
+	Before int `json:"other_primaries_before"`
+	After  int `json:"other_primaries_after"`
+}
+
+// bystander is a configured primary the scoped client must not need: a plain beacon mock with its own address.
+type bystander struct {
+	beaconmock.Mock
+	addr string
+}
+
+func (b bystander) Address() string { return b.addr }
 
 func (s *cellSpec) fill() {
 	for i := range s.Prim {
@@ -329,6 +347,11 @@ func newCellRun(kc *kit.Case, spec *cellSpec) (*cellRun, error) {
 		}
 		c.proxySha = shaHex(c.proxyBody)
 	}
+	if c.nP == 1 && spec.Scoped == nil && spec.Kind != "burst" {
+		if rng := kc.R.Rand(kc.Idx, 9); rng.Intn(2) == 0 { // own PRNG stream of the case: reproducible
+			spec.Scoped = &scopedSpec{Before: rng.Intn(4), After: rng.Intn(3)}
+		}
+	}
 	for i, ns := range all {
 		uid := uint64(kc.Idx)*16 + uint64(i) + 1
 		n := &node{Mock: bm, run: c, idx: i, bit: 1 << uint(i), fallback: i >= c.nP, spec: ns, uid: uid, gate: make(chan struct{})}
@@ -384,6 +407,21 @@ func (c *cellRun) multi() eth2wrap.Client {
 	}
 	for _, n := range c.nodes[c.nP:] {
 		fall = append(fall, n)
+	}
+
+	if sc := c.spec.Scoped; sc != nil && c.nP == 1 {
+		var all []eth2wrap.Client
+		for i := 0; i < sc.Before; i++ {
+			all = append(all, bystander{Mock: c.nodes[0].Mock, addr: fmt.Sprintf("http://c19-bystander-b%d.invalid", i)})
+		}
+		all = append(all, prim...)
+		for i := 0; i < sc.After; i++ {
+			all = append(all, bystander{Mock: c.nodes[0].Mock, addr: fmt.Sprintf("http://c19-bystander-a%d.invalid", i)})
+		}
+		c.kc.R.Count("cells_scoped_via_client_for_address", 1)
+		c.kc.R.Count(fmt.Sprintf("cells_scoped/primary-position-%d-of-%d/fallbacks-%d", sc.Before, sc.Before+1+sc.After, len(fall)), 1)
+
+		return eth2wrap.NewMultiForT(all, fall).ClientForAddress(c.nodes[0].Address())
 	}
 
 	return eth2wrap.NewMultiForT(prim, fall) // fresh client per cell: no best-selector state carried over
@@ -666,6 +704,9 @@ func (v *verdicts) violation(rule, what string) {
 	sig := fmt.Sprintf("eth2wrap.multi/%s/%s", c.meth.sigStyle(), rule)
 	if c.aged != nil {
 		sig += "/client-older-than-selector-period"
+	}
+	if c.spec.Scoped != nil {
+		sig += "/client-scoped-to-one-primary-via-ClientForAddress"
 	}
 	violSeen.Add(1)
 	v.fired = append(v.fired, sig)
